@@ -186,4 +186,55 @@ theorem commit_size_eq (c : Commit) (hids : Ids20 c) (ha : Signature.I64 c.autho
     hids.1, hpl, ← hab, ← hcb, heb, hxb]
   omega
 
+theorem tag_size_eq (t : Tag) (hid : t.target.length = 20)
+    (ht : ∀ s, t.tagger = some s → Signature.I64 s) (bs : Bytes) (hw : t.write = some bs) :
+    t.size = bs.length := by
+  unfold Tag.write at hw
+  cases hname : tagNameLine t with
+  | none => simp [hname, concatOpts, optAppend] at hw
+  | some nb =>
+  cases htl : taggerLine t.tagger with
+  | none => simp [hname, htl, concatOpts, optAppend] at hw
+  | some tb =>
+    have hnl : nb.length = 3 + 1 + t.name.length + 1 := by
+      unfold tagNameLine at hname
+      by_cases h1 : t.nameValid
+      · by_cases h2 : t.name.head? == some 45
+        · simp [h1, h2] at hname
+        · simp only [h1, h2, Bool.not_true, Bool.false_eq_true, if_false] at hname
+          have := headerField_length _ _ _ hname
+          simpa using this
+      · simp [h1] at hname
+    have htb : tb.length = taggerSize t.tagger := by
+      cases htg : t.tagger with
+      | none => simp [htg, taggerLine] at htl; subst htl; rfl
+      | some sg =>
+        simp only [htg, taggerLine] at htl
+        cases hs : sg.write with
+        | none => simp [hs] at htl
+        | some sb =>
+          have hsb := sig_size_eq sg (ht sg htg) sb hs
+          simp only [hs, Option.map_some, Option.some.injEq] at htl
+          subst htl
+          simp only [taggerSize, hsb, List.length_append, List.length_cons, List.length_nil]
+    have hpg : (pgpPart t.pgp).length = pgpSize t.pgp := by
+      cases t.pgp with
+      | none => rfl
+      | some m => simp only [pgpPart, pgpSize, List.length_append, List.length_cons, List.length_nil]
+    simp only [hname, htl, concatOpts, optAppend, Option.some.injEq] at hw
+    subst hw
+    simp only [Tag.size, List.length_append, List.length_cons, List.length_nil, hexBytes_length,
+      hid, hnl, htb, hpg]
+    omega
+
+/-- The loose header is `<kind> SP <decimal size> NUL`; with `size_eq` above it declares exactly
+the number of body bytes that follow, so the hashed bytes are what `git hash-object` hashes. -/
+theorem loose_header_shape (k : Kind) (n : Nat) :
+    looseHeader k n = k.bytes ++ [32] ++ natDec n ++ [0] := rfl
+
+theorem commit_header_declares_body (c : Commit) (hids : Ids20 c) (ha : Signature.I64 c.author)
+    (hc : Signature.I64 c.committer) (bs : Bytes) (hw : c.write = some bs) :
+    looseHeader .commit c.size ++ bs = Kind.commit.bytes ++ [32] ++ natDec bs.length ++ [0] ++ bs := by
+  rw [commit_size_eq c hids ha hc bs hw]; rfl
+
 end GixModel.Props.C01
